@@ -129,7 +129,11 @@ def work(hists, cfg, open_ids):
         except Exception:
             nops = None
             part.count("narrowing_not_expressible")
-        for data in inputs.data_maps(tabs, cfg["kd"], cfg["ke"], inputs.D_ROWS_Q, inputs.E_ROWS_Q):
+        datas = inputs.data_maps(tabs, cfg["kd"], cfg["ke"], inputs.D_ROWS_Q, inputs.E_ROWS_Q)
+        if not cfg["per_column"]:
+            # quick tier: the empty table, every single row, and the two-row tables that start with the first row
+            datas = [dm for dm in datas if len(dm["d"]["rows"]) < 2 or (dm["d"]["rows"][0] == inputs.D_ROWS_Q[0] and dm["d"]["rows"][1] != dm["d"]["rows"][0])]
+        for data in datas:
             base_p = backends.run_pandas(ops, data)
             base_s = backends.run_sql(g[1], data) if (g[0] == "ok" and cat) else None
             part.count("traces_validated_against_impl")
@@ -214,7 +218,7 @@ def run(tier):
         rule="every pipeline reachable in <= 2 builder calls over the core menu" + (" (quick tier: the first call from a thinner one-per-shape selection of the menu, every later call from the full menu)" if tier == "quick" else "")
         + (" plus <= 2 over the SQL-translation slice" if tier != "quick" else "")
         + " plus <= 3 calls over the shared-DAG slice (a derived node narrowed differently on two paths that are then joined or stacked)"
-        + " that leaves some input column unreported x all multisets of <= 2 rows x every perturbation (all-null, each domain constant, reversed, alternating) of the unreported columns, on Pandas and SQLite; plus the narrowed replay on restricted inputs",
+        + f" that leaves some input column unreported x {'the empty table, every single row and two two-row tables' if tier == 'quick' else 'all multisets of <= 2 rows'} x every perturbation (all-null, each domain constant, reversed, alternating) of the unreported columns, on Pandas and SQLite; plus the narrowed replay on restricted inputs",
     )
 
 
